@@ -510,7 +510,8 @@ def _check_operator(name, op, ref, desc, region, K, eps, cplx, notes,
                         'adjoint maps {!r} -> {!r}'.format(adj.domain,
                                                            adj.range))
     if not adj.is_linear:
-        raise Violation(asig, 'adjoint is not flagged linear')
+        raise Violation('C13|is-linear|{}.adjoint|{}'.format(name, mode),
+                        'adjoint is not flagged linear')
     N, noff = _opmatrix(adj, asig)
     coltol = K * eps * np.abs(ref_M).sum(axis=0) + 1e-300
     if name == 'Laplacian':
